@@ -56,4 +56,10 @@ def BodyOk (l : List Nat) : Prop := PairBelow 0x90 l ∧ l.getLast? ≠ some 255
 
 instance (l : List Nat) : Decidable (BodyOk l) := by unfold BodyOk; infer_instance
 
+/-- `r` is a position inside `data` that is not immediately after an 0xFF byte -/
+def CutOk (data : List Nat) (r : Nat) : Prop := r ≤ data.length ∧ (0 < r → data.getD (r - 1) 0 ≠ 0xFF)
+
+instance (data : List Nat) (r : Nat) : Decidable (CutOk data r) := by unfold CutOk; infer_instance
+
+
 end StrictJ2k
